@@ -41,7 +41,7 @@ def run(ctx):
     # … and on several-haplotype maps (>= 2 per-assembly rows: only then info.yaml carries TOTALS next to the rows) with contaminants, same-tag
     # homologues and input names with and without a haplotype prefix: breaks / joins OUTSIDE every per-assembly row exist only there, so only there
     # "total = sum of the rows" is false (wave 11, C11i)
-    cli_cases += [R.make_case(ctx.rng, k) for k in ("tagged2", "hapmix", "hapnames", "homtag", "tagged2") for _ in range(24 if ctx.thorough else 6)]
+    cli_cases += [R.make_case(ctx.rng, k) for k in ("hapstats", "hapstats", "hapstats", "tagged2", "hapmix", "homtag") for _ in range(24 if ctx.thorough else 6)]
     R.run_cli_cases(ctx, "cli-end-to-end", cli_cases, classify, only=["haplotig", "yaml"])
     # history: the same maps remapped AFTER other maps of the same input on ONE IndexedAssembly object (in-process state must not matter)
     hk = ['script', 'dupnames', 'tagged']
